@@ -283,6 +283,52 @@ def emit_c12(repo, types, props, anc, desc, out):
     open(out, "w").write("\n".join(L) + "\n")
     return bad, nfun
 
+def emit_c12_types(repo, types, props, anc, out, only=None):
+    """C12, decoding side of 'each type has exactly its ontology's properties': Deserialize<Type> hands the document to the
+    decoder of each of those properties (and to no other), keeps what that decoder returns in the property's own field, and
+    keeps exactly the members whose name is not one of those properties' names (or 'Map' forms) as unknown members."""
+    L = ["# GENERATED on every run by /verif/oracle/ontology.py from /repo/astool/*.jsonld -- C12 contracts for Deserialize<Type>", ""]
+    nfun = 0
+    for t in sorted(types):
+        if only and t not in only:
+            continue
+        d = types[t]
+        line = {t} | anc[t]
+        exp = []  # (field, decoder method, member names)
+        for pn, pd in sorted(props.items()):
+            if set(pd["domain"]) & line and not (set(pd.get("without_types") or []) & line):
+                names = [pn] + ([pn + "Map"] if "langString" in pd["range"] else [])
+                exp.append((pd["vocab"] + cap(pn), "Deserialize%sProperty%s" % (cap(pn), pd["vocab"]), names))
+        exp.append(("JSONLDId", "DeserializeIdPropertyJSONLD", ["id"]))
+        if not d["typeless"]:
+            exp.append(("JSONLDType", "DeserializeTypePropertyJSONLD", ["type"]))
+        pkg = "streams/impl/%s/type_%s" % (d["impldir"], t.lower())
+        known = sorted(set(n for _, _, ns in exp for n in ns))
+        L.append("specfun knownMember%s%s(k) = %s" % (d["vocab"], t, " || ".join('k == "%s"' % n for n in known)))
+        L.append("func %s.Deserialize%s" % (pkg, t))
+        L.append("  params m, aliasMap")
+        for f, dec, _ in sorted(exp):
+            fnv = 'decFnByName("%s")' % dec
+            L.append("  [C12] ensures %s_is_what_its_own_decoder_returns: result1 == nil ==> decOK(%s, m, aliasMap) && result0.%s == decVal(%s, m, aliasMap)" % (f, fnv, f, fnv))
+        K = "knownMember%s%s" % (d["vocab"], t)
+        L.append("  [C12] ensures exactly_the_other_members_are_kept_as_unknown: result1 == nil ==> (forall k String :: {has(result0.unknown, k)} has(result0.unknown, k) == (has(m, k) && !%s(k)))" % K)
+        L.append("  [C12] ensures unknown_members_keep_their_value: result1 == nil ==> (forall k String :: {result0.unknown[k]} has(m, k) && !%s(k) ==> result0.unknown[k] == m[k])" % K)
+        lo = 1 if d["typeless"] else 2
+        L.append("  loop %d [C12] invariant own_fresh_map: this != nil && this.unknown != nil && fresh(this.unknown) && fresh(this)" % lo)
+        L.append("  loop %d [C12] invariant visited_are_members: forall k String :: {visited(1)[k]} visited(1)[k] ==> has(m, k)" % lo)
+        L.append("  loop %d [C12] invariant unknown_so_far: forall k String :: {has(this.unknown, k)} has(this.unknown, k) == (visited(1)[k] && !%s(k))" % (lo, K))
+        L.append("  loop %d [C12] invariant unknown_values_so_far: forall k String :: {this.unknown[k]} visited(1)[k] && !%s(k) ==> this.unknown[k] == m[k]" % (lo, K))
+        for f, dec, _ in sorted(exp):
+            fnv = 'decFnByName("%s")' % dec
+            L.append("  loop %d [C12] invariant %s_decoded: decOK(%s, m, aliasMap) && this.%s == decVal(%s, m, aliasMap)" % (lo, f, fnv, f, fnv))
+        L.append("dyncall %s.Deserialize%s.* satisfies slot-decoder-call" % (pkg, t))
+        for f, dec, _ in sorted(exp):
+            L.append("iface %s.privateManager.%s" % (pkg, dec))
+            L.append('  ensures result == decFnByName("%s") && result != nil' % dec)
+        nfun += 1
+    open(out, "w").write("\n".join(L) + "\n")
+    return nfun
+
 def emit_c14(types, out):
     """C14: which callback signature belongs to which (vocabulary URI, type name): derived from the ontology
     files only.  specfuns are expanded where the contracts in /repo/streams/verif_contracts.go use them.
@@ -336,6 +382,10 @@ if __name__ == "__main__":
     elif sys.argv[1] == "c12":
         bad, nfun = emit_c12(repo, types, props, anc, desc, sys.argv[3])
         print(json.dumps(dict(types=len(types), properties=len(props), type_accessor_contracts=nfun, lemma_failures=bad)))
+    elif sys.argv[1] == "c12types":
+        only = set(sys.argv[4].split(",")) if len(sys.argv) > 4 else None
+        n = emit_c12_types(repo, types, props, anc, sys.argv[3], only)
+        print(json.dumps(dict(types=len(types), properties=len(props), type_decoder_contracts=n, lemma_failures=[])))
     elif sys.argv[1] == "c14":
         emit_c14(types, sys.argv[3])
         bad = []
